@@ -1033,7 +1033,9 @@ fn gen_surgery(rng: &mut Rng, info: &FontInfo) -> Option<Surgery> {
     if rng.pct(40) {
         // several records with disjoint conditions: different tuples select different
         // substitution tables (a cache keyed on "some substitution is active" is not enough)
-        let fi2 = *rng.pick(&with_lookups);
+        // same feature in both records half of the time: the records then differ only in the
+        // alternate feature table they point to
+        let fi2 = if rng.pct(50) { fi } else { *rng.pick(&with_lookups) };
         let other = rng.pick(&info.gsub_features).1.clone();
         return Some(Surgery::FeatureVariationsMulti {
             table: "GSUB".to_string(),
